@@ -7,6 +7,6 @@ CONSTANTS
   Reqs = {"b", "u", "h", "big"}
   Deltas = {"cpu+", "cpu-", "mem+", "mem-", "keep", "unbind", "bind", "huge"}
   Includes <- IncludesThorough
-  Modes = {"fault", "crash"}
+  Modes = {"fault", "crash", "cancel"}
 CONSTRAINT Emit
 CHECK_DEADLOCK FALSE
